@@ -133,6 +133,8 @@ pub struct Layout {
     pub reversed: bool,
     pub percent_empty: bool,
     pub header: bool,
+    /// every rule with >= 2 productions is written in two pieces (`A: p1; ...; A: p2 | p3;`)
+    pub reopen: bool,
 }
 
 const GAPS: [&str; 9] = [" ", "\n", "\t ", " // comment 'x' { |\n", " /* c: ; | */ ", " /* first line\n// second line */ ", " /** doc **/ ", "/**/", " /* a * b / c ***/ "];
@@ -253,8 +255,24 @@ pub fn render(s: &YSpec, l: &Layout) -> Option<Rendered> {
     text.push_str("%%");
     text.push_str(gap);
     let nrules = g.nrules() + if s.unused_rule { 1 } else { 0 };
+    // (rule, first production, one past the last) in the order the pieces are written
+    let mut pieces: Vec<(usize, usize, usize)> = vec![];
     for r in 0..nrules {
-        let (name, prods): (String, Vec<Vec<Sym>>) = if r < g.nrules() { (g.rule_name(r), g.rules[r].clone()) } else { ("Unused".to_string(), vec![vec![]]) };
+        let np = if r < g.nrules() { g.rules[r].len() } else { 1 };
+        pieces.push((r, 0, if l.reopen && np >= 2 { 1 } else { np }));
+    }
+    if l.reopen {
+        if !(0..g.nrules()).any(|r| g.rules[r].len() >= 2) {
+            return None;
+        }
+        for r in 0..g.nrules() {
+            if g.rules[r].len() >= 2 {
+                pieces.push((r, 1, g.rules[r].len()));
+            }
+        }
+    }
+    for (r, from, to) in pieces {
+        let (name, prods): (String, Vec<Vec<Sym>>) = if r < g.nrules() { (g.rule_name(r), g.rules[r][from..to].to_vec()) } else { ("Unused".to_string(), vec![vec![]]) };
         text.push_str(&name);
         if s.kind == Kind::Grmtools {
             text.push_str(gap);
@@ -264,8 +282,9 @@ pub fn render(s: &YSpec, l: &Layout) -> Option<Rendered> {
         }
         text.push_str(if gap.contains('\n') || s.kind == Kind::Grmtools { "" } else { gap });
         text.push(':');
-        for (i, p) in prods.iter().enumerate() {
-            if i > 0 {
+        for (i0, p) in prods.iter().enumerate() {
+            let i = i0 + from;
+            if i0 > 0 {
                 text.push_str(gap);
                 text.push('|');
             }
@@ -340,7 +359,7 @@ fn replay_case(s: &YSpec, l: &Layout, text: &str) -> serde_json::Value {
         "base": s.base.to_json(),
         "kind": format!("{:?}", s.kind),
         "features": s.features,
-        "layout": {"quote": format!("{:?}", l.quote), "gap": l.gap, "reversed": l.reversed, "percent_empty": l.percent_empty, "header": l.header},
+        "layout": {"quote": format!("{:?}", l.quote), "gap": l.gap, "reversed": l.reversed, "percent_empty": l.percent_empty, "header": l.header, "reopen": l.reopen},
     })
 }
 
@@ -365,6 +384,7 @@ fn spec_from_replay(case: &serde_json::Value) -> Option<(YSpec, Layout)> {
         reversed: l["reversed"].as_bool()?,
         percent_empty: l["percent_empty"].as_bool()?,
         header: l["header"].as_bool()?,
+        reopen: l["reopen"].as_bool().unwrap_or(false),
     };
     Some((mk_spec(&base, kind, &feats)?, layout))
 }
@@ -729,7 +749,11 @@ fn layouts(quick: bool) -> Vec<Layout> {
                         if quick && reversed && percent_empty && header && gap % 2 == 1 {
                             continue;
                         }
-                        v.push(Layout { quote, gap, reversed, percent_empty, header });
+                        v.push(Layout { quote, gap, reversed, percent_empty, header, reopen: false });
+                        // re-opened rules: a third of the layouts (every gap style, one quoting)
+                        if quote == Quote::Single && !reversed {
+                            v.push(Layout { quote, gap, reversed, percent_empty, header, reopen: true });
+                        }
                     }
                 }
             }
@@ -812,7 +836,7 @@ pub fn run(ctx: Ctx) -> i32 {
         machinery("vacuous exploration (C10)");
     }
     let demo = mk_spec(&bases[bases.len() / 2], Kind::Grmtools, &["precs", "epp"]).or_else(|| mk_spec(&family_seeds()[1], Kind::Grmtools, &["precs", "epp"])).unwrap();
-    ctx.sample(json!({"text": render(&demo, &Layout { quote: Quote::Single, gap: 4, reversed: true, percent_empty: true, header: true }).map(|r| r.text)}));
+    ctx.sample(json!({"text": render(&demo, &Layout { quote: Quote::Single, gap: 4, reversed: true, percent_empty: true, header: true, reopen: false }).map(|r| r.text)}));
     let cov = json!({
         "states": stats.specs,
         "transitions": stats.renderings,
